@@ -60,6 +60,84 @@ def search_loop_as_any(ex, n, st):
     return new
 
 
+def first_match_loop(ex, n, st, itv):
+    """`for T in XS: if C: S...; break|return` where S may use T (so it is not an any(...)): Python runs S for the FIRST element satisfying C and
+    leaves, or finishes without running S.  Rule (C must be total and effect-free on an element, which is checked): either some index j has
+    C(XS[j]) -- S runs with T = XS[j] -- or no element satisfies C.  "C is false before j" / "C is false everywhere" are universally quantified;
+    they are instantiated at index 0 only (a weaker, hence sound, assumption) so that path conditions stay quantifier-free."""
+    if len(n.body) != 1 or not isinstance(n.body[0], ast.If) or n.body[0].orelse or not n.body[0].body or not isinstance(n.target, ast.Name):
+        return None
+    iff = n.body[0]; last = iff.body[-1]
+    if not isinstance(last, (ast.Break, ast.Return)):
+        return None
+    inner = iff.body[:-1] if isinstance(last, ast.Break) else iff.body
+    if any(isinstance(x, (ast.Break, ast.Continue, ast.Yield, ast.YieldFrom, ast.Await)) for nd in inner for x in ast.walk(nd)):
+        return None
+    if not ex.is_kind(st, itv, 'list', 'tuple'):
+        return None
+    xs = st.seq(itv); T = n.target.id
+
+    def cond_at(s, elem):
+        """truth of C with T = elem, evaluated in a copy; None unless total and effect-free"""
+        c = s.copy(); c.setvar(T, elem); h0 = dict(c.heap); g0 = (c.g['dmap'], c.g['ddom'], c.g['seq'])
+        rs = ex.ev(iff.test, c)
+        if len(rs) != 1 or rs[0][1][0] != 'val':
+            return None
+        c2 = rs[0][0]
+        if any(c2.heap.get(f) is not h0[f] for f in h0) or (c2.g['dmap'], c2.g['ddom'], c2.g['seq']) != g0 or len(c2.trace) != len(s.trace) or len(c2.events) != len(s.events):
+            return None
+        return ex.truth(c2, rs[0][1][1])
+    j = fresh('first_match_index', z3.IntSort())
+    probe = st.copy(); probe.assume(z3.And(j >= 0, j < z3.Length(xs)))
+    cj = cond_at(probe, xs[j]); c0 = cond_at(st, xs[0])
+    if cj is None or c0 is None:
+        return None
+    outs = []
+    sF = st.copy(); sF.assume(z3.And(j >= 0, j < z3.Length(xs), cj, z3.Implies(j > 0, z3.Not(c0))))
+    if sF.sat():
+        sF.setvar(T, xs[j]); sF.g['first_match'] = dict(seq=xs, index=j, elem=xs[j])
+        for s1, oc in ex.block(inner, sF) if inner else [(sF, ('normal',))]:
+            outs.append((s1, oc if oc[0] != 'normal' else (('normal',) if isinstance(last, ast.Break) else None)))
+        fixed = []
+        for s1, oc in outs:
+            if oc is None:
+                fixed += ex.block([last], s1)          # the trailing `return expr`
+            else:
+                fixed.append((s1, oc))
+        outs = fixed
+    sN = st.copy(); sN.assume(z3.Implies(z3.Length(xs) > 0, z3.Not(c0)))
+    if sN.sat():
+        sN.setvar(T, fresh('h_' + T)); sN.g['no_match'] = dict(seq=xs); sN.g['loop_exhausted'] = True
+        outs.append((sN, ('normal',)))
+    return outs
+
+
+def map_loop_as_extend(ex, n, st):
+    """`for T in XS: ACC.append(E)` is `ACC.extend([E for T in XS])` (same element evaluations in the same order), provided E does not mention
+    ACC and T is not read after the loop; on an exception the accumulator holds an unknown prefix (handled by the caller).  Returns
+    (statement, accumulator name) or None."""
+    if len(n.body) != 1 or not isinstance(n.body[0], ast.Expr) or not isinstance(n.body[0].value, ast.Call):
+        return None
+    c = n.body[0].value
+    if not (isinstance(c.func, ast.Attribute) and c.func.attr == 'append' and isinstance(c.func.value, ast.Name) and len(c.args) == 1 and not c.keywords):
+        return None
+    acc = c.func.value.id; elt = c.args[0]
+    tnames = _names([n.target])
+    if acc in _names([elt]) or acc in tnames or any(isinstance(x, (ast.Yield, ast.YieldFrom, ast.Await)) for x in ast.walk(elt)):
+        return None
+    fn = st.ctx[2] if getattr(st, 'ctx', None) else None
+    if fn is not None:
+        outside = [x for x in ast.walk(fn) if isinstance(x, ast.Name) and x.id in tnames and isinstance(x.ctx, ast.Load)
+                   and not (n.lineno <= x.lineno <= getattr(n, 'end_lineno', n.lineno))]
+        if outside:
+            return None
+    comp = ast.ListComp(elt=elt, generators=[ast.comprehension(target=n.target, iter=ast.Name(id='__loop_iterable', ctx=ast.Load()), ifs=[], is_async=0)])
+    call = ast.Call(func=ast.Attribute(value=ast.Name(id=acc, ctx=ast.Load()), attr='extend', ctx=ast.Load()), args=[comp], keywords=[])
+    new = ast.Expr(value=call)
+    ast.copy_location(new, n); ast.fix_missing_locations(new)
+    return new, acc
+
+
 def do_for(ex, n, st):
     if n.orelse:
         raise Unsupported('for-else')
@@ -79,6 +157,20 @@ def do_for(ex, n, st):
                 # evaluated once already in s0, the rewritten statement names it through a fresh local
                 s0.setvar('__loop_iterable', itv)
                 outs += ex.block([alt], s0); continue
+            fm = first_match_loop(ex, n, s0, itv)
+            if fm is not None:
+                outs += fm; continue
+            alt = map_loop_as_extend(ex, n, s0)
+            if alt is not None:
+                stmt, acc = alt
+                s0.setvar('__loop_iterable', itv)
+                accv = s0.lookup(acc)
+                for s1, oc in ex.block([stmt], s0):
+                    if oc[0] == 'raise' and accv is not None and ex.is_kind(s1, accv, 'list'):
+                        # the loop appends element by element: when an element evaluation raises, the accumulator holds SOME prefix of the results
+                        s1.set_seq(accv, fresh('partial_' + acc, SeqV))
+                    outs.append((s1, oc))
+                continue
             raise Unsupported('for loop over a symbolic sequence without an invariant: line %d' % n.lineno)
         states = [s0]
         for x in spine:
@@ -127,8 +219,6 @@ def cut_for(ex, n, st, sp):
 
 
 def do_while(ex, n, st):
-    if n.orelse:
-        raise Unsupported('while-else')
     sp = ex.hook('loop', st, n, None)
     if sp is None:
         raise Unsupported('while loop without an invariant: line %d' % n.lineno)
@@ -145,7 +235,11 @@ def do_while(ex, n, st):
             outs.append((s1, ('raise', r[1]))); continue
         sT, sF = ex.fork(s1, ex.truth(s1, r[1]))
         if sF is not None:
-            sF.g['loop_exit_by_guard'] = True; outs.append((sF, ('normal',)))
+            sF.g['loop_exit_by_guard'] = True
+            if n.orelse:
+                outs += ex.block(n.orelse, sF)          # while ... else: the else suite runs when the guard fails (not after a break)
+            else:
+                outs.append((sF, ('normal',)))
         if sT is not None:
             for s2, oc in ex.block(n.body, sT):
                 if oc[0] in ('normal', 'continue'):
